@@ -22,6 +22,7 @@ SUBS = [
     dict(name="giant-sha256", quick=dict(cases=1, shards=1), thorough=dict(cases=2, shards=2)),
     dict(name="giant-sha1", quick=dict(cases=1, shards=1), thorough=dict(cases=2, shards=2)),
     dict(name="giant-md5", quick=dict(cases=1, shards=1), thorough=dict(cases=2, shards=2)),
+    dict(name="giant-key", quick=dict(cases=1, shards=2), thorough=dict(cases=2, shards=3)),
     dict(name="giant-pbkdf2", quick=dict(cases=1, shards=1), thorough=dict(cases=1, shards=3)),
     dict(name="giant-iter", thorough=dict(cases=1, shards=1)),
     dict(name="giant-crc32c", quick=dict(cases=1, shards=1), thorough=dict(cases=3, shards=3)),
